@@ -1012,9 +1012,15 @@ class SupportComplexDataType(Element):
 
         if hasattr(self, 'children') and len(self.children) >= 1:
             if is_base_datatype(self.datatype, self.version):
+                old_datatype = self._datatype
                 self._datatype = datatype
                 if is_base_datatype(datatype, self.version):
-                    self.children[0].datatype = datatype
+                    try:
+                        self.children[0].datatype = datatype
+                    except Exception:
+                        # the child refuses the new datatype (e.g. a valued subcomponent): nothing changes
+                        self._datatype = old_datatype
+                        raise
             else:
                 raise OperationNotAllowed("Cannot change datatype: the Element already contains children")
         else:
